@@ -37,10 +37,15 @@ type prefixWriter struct {
 	writer   io.Writer
 	prefixed *Prefixed
 	prefix   string
+	mutex    sync.Mutex
 	buff     bytes.Buffer
 }
 
+// Write may be called concurrently: both ends of a pipeline and background
+// jobs of one command write to the same writer
 func (pw *prefixWriter) Write(p []byte) (int, error) {
+	pw.mutex.Lock()
+	defer pw.mutex.Unlock()
 	n, err := pw.buff.Write(p)
 	if err != nil {
 		return n, err
@@ -50,6 +55,8 @@ func (pw *prefixWriter) Write(p []byte) (int, error) {
 }
 
 func (pw *prefixWriter) close() error {
+	pw.mutex.Lock()
+	defer pw.mutex.Unlock()
 	return pw.writeOutputLines(true)
 }
 
